@@ -43,6 +43,11 @@ void harness(void)
 {
   in_plen = nondet_size_t(); in_slen = nondet_size_t();
   __CPROVER_assume(in_plen <= MAX_P && in_slen <= MAX_S);
+#ifdef FIX_PLEN
+  /* case split on the lengths (contents stay symbolic): with concrete lengths every
+     copy and every absorb loop has a concrete trip count */
+  in_plen = FIX_PLEN; in_slen = FIX_SLEN;
+#endif
   for (size_t i = 0; i < MAX_P; i++) { in_phrase[i] = nondet_char(); if (i < in_plen) __CPROVER_assume(in_phrase[i] != 0); }
   in_phrase[in_plen] = 0;
   for (size_t j = 0; j < PLEN; j++) in_setting[j] = PREFIX_STR[j];
